@@ -312,6 +312,11 @@ func propC19(r *kernel.Run) {
 		if in.Op == "load" && tp.Draw(2) == 0 {
 			in.Dirty = true
 		}
+		if in.Op == "load" && backend == "file" && tp.Draw(8) == 0 {
+			// IDs that were never stored and are not plain file names (only LOADED on the file back end, never stored or
+			// removed there): nothing is found under them, whatever the directory tree looks like
+			in.ID = Pick2(tp, ".", "..", "x/../a", "x/../ab", "./a", "a/", "../a", "a/.")
+		}
 		return in
 	}
 	r.Count("cfg.backend."+backend, 1)
